@@ -155,8 +155,9 @@ class InterpNDSemi(object):
         ndarray
             Value of interpolant at all sample points.
         """
-        # cache latest evaluation point for gradient method's use later
-        self._xi = xi
+        # cache latest evaluation point for gradient method's use later (a copy: the caller may
+        # change its array in place before asking for the gradient)
+        self._xi = np.array(xi)
 
         if not self.extrapolate:
             for i, p in enumerate(xi.T):
